@@ -37,7 +37,7 @@ ASSUMPTIONS = [
     "memoize's argument match (== or shallow_compare_nomt) is an equivalence on the arguments actually passed (hypothesis of C07_memoize_order_free; fails for NaN and for objects with a non-transitive __eq)",
     "UNDISCHARGED: resolve_steps_commute - single steps of Symbol:resolve_type / forced resolution commute (hypothesis of C07_resolve_symbols_order_free_conditional); the differential compilations are the only evidence for it",
     "the differential runs sample seeds and layouts; they are tests, not a proof that the whole compiler is order-free",
-    "cold vs warm cache directory is compared on the generated C file (nelua --code); the reuse of a cached BINARY within the same second serves a stale artefact (two sources with one basename compiled into one --cache-dir within a second run the first binary twice): that defect is keyed and replayed under C08 (known_findings/C08.json, 'stale-history: R:0:-:0:0:0:0:0:0 R:0:-:1:0:0:0:0:0')",
+    "cold vs warm cache directory is compared on the generated C file (nelua --code); the reuse of a cached BINARY within the same second used to serve a stale artefact (two sources with one basename compiled into one --cache-dir within a second ran the first binary twice): fixed in /repo by 8d3d23d, replayed in real time on every run under C08 (known_findings/C08.json 'fixed', history R:0:-:0:0:0:0:0:0 R:0:-:1:0:0:0:0:0)",
 ]
 
 SEEDS = [1, 2654435769]
